@@ -174,6 +174,18 @@ theorem bounds_today :
     recoveryBound Config.idleTable = 369 ∧ recoveryBound Config.activeTable = 311 ∧
     unreachableBound Config.idleTable = 247 ∧ unreachableBound Config.activeTable = 21 := by decide +kernel
 
+/-- **a reset that is slow to announce itself still recovers**: when the client's handlers of the disconnection events take long
+enough for the sequence pump to run a whole discovery inside the reset, the reset's last statements forget what that discovery
+found (`resetForgetsDescriptorsLast`, regenerated), so the manager lands in IDLE without descriptors and the pump searches again -
+from every coherent record a healthy network then leads to CONNECTED.  (Before the repair of finding D16 the reset landed in IDLE
+WITH descriptors: neither rule of the pump applies there, and the manager stayed idle for good.) -/
+theorem reset_with_a_discovery_inside_recovers : ∀ s ∈ allR, Coherent s = true → s.pump = true →
+    Coherent (step s .locateInReset) = true ∧ connected (run (step s .locateInReset) healthySeq) = true := by decide +kernel
+
+/-- non-vacuity / the defect: with a reset that does not forget the descriptors last, the same step from CONNECTED ends in a record
+on which neither the pump nor a ping acts -/
+example : Stuck { st := "IDLE", descriptors := true, facade := false, spaAlive := false, pump := true } = true := by decide +kernel
+
 /-! ### the sequence pump outlives every failure of what it calls -/
 
 /-- the awaits of the pump that can fail with an ordinary exception: the library coroutines it drives (locate, connect, reset) -
